@@ -45,7 +45,10 @@ RULE = ("single code points: every scalar value U+0000..U+10FFFF (thorough) / al
         "closure-per-lookup model (utf8/latin1/ascii) and vs bytes.decode (8 charsets), the argument also a non-str/bytes value "
         "(True/1/1.0, False/0/0.0, Decimal, unhashable containers, bytearray, None ...) or one object whose str() changes "
         "between calls (str(x) is taken at call time), plus nested renders, a deterministic two-thread interleaving and "
-        "object runs through `| decode.utf8`, `| n, decode.utf8`, default_filters; a case is non-trivial when the filter changes the text (or the decoder "
+        "object runs through `| decode.utf8`, `| n, decode.utf8`, default_filters; application sites: each filter at ${e|n,f}, "
+        "${e|f}, default_filters, <%page expression_filter> (also cached page), <%text filter>, and filter= on <%def>, nested "
+        "<%def>, <%block>, <%call>, <%self:def> x {plain, buffered, cached, cached+buffered}, rendered twice (fill + hit) with an "
+        "in-memory CacheImpl, on all strings of <= 2 atoms + random + long ones; a case is non-trivial when the filter changes the text (or the decoder "
         "finds a reference); distinct = distinct (filter, input) pairs")
 ASSUMPTIONS = [
     "strings with lone surrogates are outside the domain (Lean's Char is the Unicode scalar values); the one place "
@@ -667,6 +670,43 @@ def corr_spec(ctx, impl, shorts, rnd):
             ctx.disagree("corr.spec.decode_ref", {"input": r, "what": "html.unescape differs"}, o, html.unescape(r))
 
 
+def corr_sites(ctx, impl, inputs):
+    """`<%def>` / `<%block>` with every combination of filter= / buffered= / cached=, under buffer_filters [] and ['x']:
+    the region rendered first and on the cache hit vs `Sites.renderTwice` (write_def_finish + cache decorator model)"""
+    st = ctx.stream("corr.sites")
+    drv = ctx.driver()
+    reqs, cases = [], []
+    sub = inputs[:: 3] if ctx.quick else inputs[:: 2]
+    for form in ("def", "block", "nested-def"):
+        for b in (False, True):
+            for c in (False, True):
+                mode = {(False, False): "plain", (True, False): "buffered", (False, True): "cached", (True, True): "cached+buffered"}[b, c]
+                if form == "block" and b:
+                    continue          # see oracle_sites: a buffered block renders nothing in place
+                for filtered in (True, False):
+                    for f in ("x", "h", "u", "entity", "trim"):
+                        if not filtered and f != "x":
+                            continue
+                        for buf in ((), ("x",)):
+                            for v in sub:
+                                reqs.append("filt site %d %d %d %s %s %s" % (b, filtered, c, f, "x" if buf else "id", enc(v)))
+                                cases.append((form, mode, f, v, buf, filtered))
+    outs = drv.ask_many(reqs)
+    for (form, mode, f, v, buf, filtered), o in zip(cases, outs):
+        st["cases"] += 1
+        try:
+            got = site_render_twice(form, mode, f, v, buf, filtered)
+            want = enc(got[0]) + " " + enc(got[1])
+        except Exception as e:
+            want = "raises " + type(e).__name__
+        if o != want:
+            ctx.disagree("corr.sites", {"input": v, "filter": f, "form": form, "mode": mode, "buffer_filters": list(buf),
+                                        "filtered": filtered}, o, want)
+        elif filtered:
+            ctx.nontriv(("site", form, mode, f, v, buf))
+    ctx.branch("sites:corr-cases", len(cases))
+
+
 def handler_cases(ctx, cps, rnd):
     """(text, charset) pairs for the error handler"""
     for cs in CHARSETS:
@@ -995,6 +1035,182 @@ def oracle_decode_state(ctx, rep, F):
                                                       "e1": e1, "e2": e2, "bytes1": "c3a9"}, bad, "oracle.decode.threads")
 
 
+# --------------------------------------------------------------------------- application sites of a filter
+
+SITE_L, SITE_R = "\u27e6", "\u27e7"
+SITE_MODES = {"plain": "", "buffered": ' buffered="True"', "cached": ' cached="True"',
+              "cached+buffered": ' cached="True" buffered="True"'}
+SITE_FILTERS = ["h", "x", "u", "entity", "trim", "decode.utf8"]
+# form -> (source with %(f)s / %(attr)s, has modes, what the body text is for the input v)
+SITE_FORMS = {
+    "expr-n": (SITE_L + "${v | n,%(f)s}" + SITE_R, False, lambda v: v),
+    "expr": (SITE_L + "${v | %(f)s}" + SITE_R, False, lambda v: v),
+    "default_filters": (SITE_L + "${v}" + SITE_R, False, lambda v: v),
+    "page-expression_filter": ('<%%page expression_filter="%(f)s"/>' + SITE_L + "${v}" + SITE_R, False, lambda v: v),
+    "page-cached": ('<%%page expression_filter="%(f)s" cached="True"/>' + SITE_L + "${v}" + SITE_R, False, lambda v: v),
+    "def": ('<%%def name="d(v)" filter="%(f)s"%(attr)s>${v | n}</%%def>' + SITE_L + "${d(v) | n}" + SITE_R, True, lambda v: v),
+    "nested-def": ('<%%def name="outer(v)"><%%def name="d(v)" filter="%(f)s"%(attr)s>${v | n}</%%def>${d(v) | n}</%%def>'
+                   + SITE_L + "${outer(v) | n}" + SITE_R, True, lambda v: v),
+    "block": (SITE_L + '<%%block name="b" filter="%(f)s"%(attr)s>${v | n}</%%block>' + SITE_R, True, lambda v: v),
+    "call": ('<%%def name="d(v)" filter="%(f)s"%(attr)s>${v | n}${caller.body()}</%%def>' + SITE_L
+             + '<%%call expr="d(v)">B</%%call>' + SITE_R, True, lambda v: v + "B"),
+    "ns-def": ('<%%def name="d(v)" filter="%(f)s"%(attr)s>${v | n}${caller.body()}</%%def>' + SITE_L
+               + '<%%self:d v="${v}">B</%%self:d>' + SITE_R, True, lambda v: v + "B"),
+}
+_site_cache = {}
+
+
+def ensure_cache_plugin():
+    """a small in-memory CacheImpl registered as `c10_dict` (no Beaker needed); returns its store"""
+    import sys
+    import types
+    mod = sys.modules.get("c10_dictcache")
+    if mod is None:
+        from mako.cache import CacheImpl, register_plugin
+        mod = types.ModuleType("c10_dictcache")
+        mod.STORE = {}
+        mod.CREATED = [0]
+
+        class DictCache(CacheImpl):
+            def get_or_create(self, key, creation_function, **kw):
+                k = (self.cache.id, key)
+                if k not in mod.STORE:
+                    mod.CREATED[0] += 1
+                    mod.STORE[k] = creation_function()
+                return mod.STORE[k]
+
+            def set(self, key, value, **kw):
+                mod.STORE[(self.cache.id, key)] = value
+
+            def get(self, key, **kw):
+                return mod.STORE.get((self.cache.id, key))
+
+            def invalidate(self, key, **kw):
+                mod.STORE.pop((self.cache.id, key), None)
+        mod.DictCache = DictCache
+        sys.modules["c10_dictcache"] = mod
+        register_plugin("c10_dict", "c10_dictcache", "DictCache")
+    return mod
+
+
+def site_template(form, mode, f, buffer_filters=(), filtered=True):
+    from mako.template import Template
+    key = (form, mode, f, tuple(buffer_filters), filtered)
+    t = _site_cache.get(key)
+    if t is None:
+        ensure_cache_plugin()
+        src = SITE_FORMS[form][0] % {"f": f, "attr": SITE_MODES.get(mode, "")}
+        if not filtered:
+            src = src.replace(' filter="%s"' % f, "")
+        kw = {"cache_impl": "c10_dict", "buffer_filters": list(buffer_filters)}
+        if form == "default_filters":
+            kw["default_filters"] = [f]
+        t = _site_cache[key] = Template(src, **kw)
+    return t
+
+
+def site_render_twice(form, mode, f, v, buffer_filters=(), filtered=True):
+    """the filtered region on a first render (cache empty) and on a second one (cache hit where cached)"""
+    t = site_template(form, mode, f, buffer_filters, filtered)
+    ensure_cache_plugin().STORE.clear()
+    res = []
+    for _ in range(2):
+        out = t.render_unicode(v=v)
+        res.append(out[out.index(SITE_L) + 1: out.rindex(SITE_R)])
+    return res
+
+
+def site_text_filter(f, body):
+    """`<%text filter="f">body</%text>` (the body is literal template text)"""
+    from mako.template import Template
+    out = Template(SITE_L + '<%%text filter="%s">' % f + body + "</%text>" + SITE_R).render_unicode()
+    return out[out.index(SITE_L) + 1: out.rindex(SITE_R)]
+
+
+def site_checks(F):
+    """filter name -> (base site name, guarantee check(out, body), the filter function itself)"""
+    return {
+        "h": ("h-markup", check_markup, lambda s: str(F.html_escape(s))),
+        "x": ("x-markup", check_markup, F.xml_escape),
+        "u": ("u-url", check_url, F.url_escape),
+        "entity": ("entity-exact", lambda o, s: check_entity(o, s, F.html_entities_unescape), F.html_entities_escape),
+        "trim": ("trim-edges", check_trim, F.trim),
+        "decode.utf8": ("decode-str", lambda o, s: None if o == s else "decode.utf8 changed a str", lambda s: s),
+    }
+
+
+def check_site(F, form, mode, f, v):
+    """the filter's guarantee at this application site, first render and hit -> None | (site, detail)"""
+    base, check, direct = site_checks(F)[f]
+    where = "%s@%s[%s]" % (base, form, mode)
+    try:
+        if form == "text":
+            if "</%text>" in v or "<%text" in v:
+                return None
+            outs = [site_text_filter(f, v)]
+            body = v
+        else:
+            outs = site_render_twice(form, mode, f, v)
+            body = SITE_FORMS[form][2](v)
+    except Exception as e:
+        return where + "-raises:" + type(e).__name__, "%s: %s" % (type(e).__name__, e)
+    for which, out in zip(("first render", "cache hit / second render"), outs):
+        bad = check(out, body)
+        if bad:
+            return where, "%s: %s (filter %s on %r gave %r)" % (which, bad, f, body, out)
+        try:
+            want = direct(body)
+        except Exception:
+            want = out
+        if out != want:
+            return where, "%s: rendered %r, the filter function gives %r" % (which, out, want)
+    return None
+
+
+def site_inputs(ctx):
+    atoms = ["<", ">", '"', "'", "&", "&amp;", "&#39;", "&lt", ";", " ", "a", "\u00e9", "\n"]
+    ins = [""] + ["".join(p) for n in (1, 2) for p in itertools.product(atoms, repeat=n)]
+    pool = atoms + ["\u20ac", "\u4e2d", "\U0001f600", "\t", "%", "+", "/", "\u00a0", "${", "<%", "##", "\\"]
+    for _ in range(120 if ctx.quick else 1500):
+        ins.append("".join(ctx.rng.choice(pool) for _ in range(ctx.rng.randint(3, 9))))
+    ins += ["<" * 40, ("&<>\"'" * 50), " " * 5 + "<b>" * 700 + "\n"]
+    return ins
+
+
+def oracle_sites(ctx, rep, F, inputs):
+    """the guarantee of each filter at every application site x {plain, buffered, cached (fill + hit)}"""
+    st = ctx.stream("oracle.sites", "oracle")
+    created0 = ensure_cache_plugin().CREATED[0]
+    combos = []
+    for form, (_, has_modes, _) in SITE_FORMS.items():
+        for mode in (SITE_MODES if has_modes else ["-"]):
+            if form == "block" and "buffered" in mode:
+                continue      # a block in place is called as a statement: the value a *buffered* block returns is dropped
+                              # by visitBlockTag whatever its filter (nothing is rendered) - not a filter matter (C05)
+            combos.append((form, mode))
+    for f in SITE_FILTERS:
+        for form, mode in combos:
+            for v in inputs:
+                st["cases"] += 2
+                bad = check_site(F, form, mode, f, v)
+                if bad:
+                    site, detail = bad
+                    rep.report(site, {"input": v, "filter": f, "via": "site", "form": form, "mode": mode}, detail, "oracle.sites",
+                               lambda t_, form=form, mode=mode, f=f, site=site: (check_site(F, form, mode, f, t_) or ("",))[0] == site)
+            ctx.branch("sites:%s[%s]" % (form, mode), len(inputs))
+        for v in inputs[:: 4]:
+            st["cases"] += 1
+            bad = check_site(F, "text", "-", f, v)
+            if bad:
+                site, detail = bad
+                rep.report(site, {"input": v, "filter": f, "via": "site", "form": "text", "mode": "-"}, detail, "oracle.sites",
+                           lambda t_, f=f, site=site: (check_site(F, "text", "-", f, t_) or ("",))[0] == site)
+    used = ensure_cache_plugin().CREATED[0] - created0
+    ctx.branch("sites:cache-fills", used)
+    if used == 0:
+        ctx.broke("oracle.sites:cache-not-exercised", "the cached forms never went through the cache backend")
+
+
 DECODE_WAYS = ["call", "filter", "filter-n", "default_filters"]
 
 
@@ -1081,7 +1297,7 @@ def oracle_decode_objects(ctx, rep, F):
                        "oracle.decode.objects")
 
 
-def oracle(ctx, impl, cps, shorts, rnd, dense):
+def oracle(ctx, impl, cps, shorts, rnd, dense, sites_in):
     """Every call into the implementation is guarded: an exception escaping from mako is a finding
     (site `<site>-raises:<Class>`, shrunk input), never a crash of the oracle.  Sections are independent: a defect of
     the harness itself in one section is recorded as a broken tie and the other sections still run."""
@@ -1224,6 +1440,7 @@ def oracle(ctx, impl, cps, shorts, rnd, dense):
     sections = [("filters", sec_filters), ("decode-values", sec_decode_values),
                 ("decode-objects", lambda: oracle_decode_objects(ctx, rep, F)),
                 ("decode-state", lambda: oracle_decode_state(ctx, rep, F)),
+                ("sites", lambda: oracle_sites(ctx, rep, F, sites_in)),
                 ("handler", sec_handler), ("render", sec_render), ("samples", sec_samples)]
     for name, sec in sections:
         try:
@@ -1238,7 +1455,7 @@ def run(ctx):
     run_streams(ctx)
 
 
-def start_oracle_child(ctx, cps, shorts, rnd, dense):
+def start_oracle_child(ctx, cps, shorts, rnd, dense, sites_in):
     """run the oracle streams in a forked child while the correspondence streams talk to the Lean driver (the two
     are independent by construction: the oracle uses neither Lean nor ctx.rng).  Returns (process, pipe) or None."""
     try:
@@ -1251,7 +1468,7 @@ def start_oracle_child(ctx, cps, shorts, rnd, dense):
             c.t0 = ctx.t0
             err = None
             try:
-                oracle(c, Impl(), cps, shorts, rnd, dense)
+                oracle(c, Impl(), cps, shorts, rnd, dense, sites_in)
             except BaseException:
                 err = traceback.format_exc()
             tx.send({"err": err, "violations": c.violations, "streams": c.streams, "branches": c.branches,
@@ -1301,14 +1518,16 @@ def run_streams(ctx):
     rnd = [random_string(ctx.rng) for _ in range(8000 if ctx.quick else 120000)]
     ctx.log("C10: %d code points, %d short strings, %d random strings" % (len(cps), len(shorts), len(rnd)))
     dense = dense_strings(ctx)
-    job = start_oracle_child(ctx, cps, shorts, rnd, dense)
+    sites_in = site_inputs(ctx)
+    job = start_oracle_child(ctx, cps, shorts, rnd, dense, sites_in)
     try:
         corr(ctx, impl, cps, shorts, rnd, dense)
         corr_spec(ctx, impl, shorts, rnd)
         corr_handler(ctx, impl, handler_cases(ctx, cps, rnd))
+        corr_sites(ctx, impl, sites_in)
     finally:
         if job is None or not join_oracle_child(ctx, job):
-            oracle(ctx, impl, cps, shorts, rnd, dense)
+            oracle(ctx, impl, cps, shorts, rnd, dense, sites_in)
 
 
 # --------------------------------------------------------------------------- replay
@@ -1368,6 +1587,21 @@ def replay(ctx, data):
         if m is not None:
             print("model         :", [x if x in ("none", "badindex") else dec(x) for x in m.split(" ")])
         r = check_decode_ops(F, ops)
+        print("oracle        :", r or "holds")
+        return r is None
+    if case.get("via") == "site":
+        r = check_site(F, case["form"], case["mode"], name, s)
+        try:
+            print("implementation: filter %s at %s[%s] on %r renders %r" % (
+                name, case["form"], case["mode"], s,
+                [site_text_filter(name, s)] if case["form"] == "text" else site_render_twice(case["form"], case["mode"], name, s)))
+        except Exception as e:
+            print("implementation: raised", type(e).__name__, e)
+        if drv is not None and case["form"] in ("def", "block", "nested-def", "call", "ns-def") and name in ("x", "h", "u", "entity", "trim"):
+            m = case["mode"]
+            body = SITE_FORMS[case["form"]][2](s)
+            o = drv.ask("filt site %d 1 %d %s id %s" % ("buffered" in m, "cached" in m, name, enc(body)))
+            print("model         : %r" % [dec(x) for x in o.split(" ")])
         print("oracle        :", r or "holds")
         return r is None
     if name == "decode" and case.get("via") == "objects":
